@@ -21,11 +21,10 @@ cp /tmp/seeded_$TAG.diff $OUT/patch.diff
 cp $DEMO $OUT/
 [ -f NOTES.md ] && cp NOTES.md $OUT/NOTES.md
 cd /verif
-if ! git -C /repo diff --quiet; then echo "/repo is dirty, refusing"; exit 2; fi
-git -C /repo apply $OUT/patch.diff || { echo "patch does not apply to /repo"; exit 2; }
+# The check runs against the scratch worktree itself (GEMSIM_REPO): it holds /repo's HEAD plus the change.  (Equivalent to
+# `git -C /repo apply` + run + `git -C /repo checkout -- .`, without disturbing background soak runs that read /repo.)
 ARGS=""; [ -n "$RUNS" ] && ARGS="--runs $RUNS"
-GEMSIM_SCRATCH=/tmp/seeded_scratch_$TAG /venv/bin/python gemsim/cli.py check $PROP $ARGS > /tmp/seeded_${TAG}_check.txt 2>&1; RC_CHECK=$?
-git -C /repo checkout -- .
+GEMSIM_REPO=$WT GEMSIM_SCRATCH=/tmp/seeded_scratch_$TAG /venv/bin/python gemsim/cli.py check $PROP $ARGS > /tmp/seeded_${TAG}_check.txt 2>&1; RC_CHECK=$?
 echo "check $PROP rc=$RC_CHECK"
 grep -E "^VIOLATION|class=|HARNESS" /tmp/seeded_${TAG}_check.txt | head -12
 mkdir -p $OUT/replays; cp /tmp/seeded_scratch_$TAG/out/*.json $OUT/replays/ 2>/dev/null
